@@ -36,6 +36,9 @@ CHECKS = {
  "C07": ("Complete enumeration of the finite type matrix, identical in both tiers: 10 binary operators x 18 operand forms x 18 (13 primitive variables, an auto-dereferenced pointer, a pointer value, an array, a struct, a word), 6 comparisons x 18 x 18, 2 unary operators x operands, `as` x operands x 17 targets, 13 target types x 18 source operands in each of the contexts initialisation, assignment, argument, return, constant, array element, struct member and index, all call arities 0-3 x 0-4, and the access operations |x|, x[i], x.m on every operand: 7 300 one-function programs through the real pipeline. A well-typed cell must be accepted, an ill-typed cell rejected with a code of its documented set; cells the documentation leaves open are not judged. An invariant monitor walks the resolved tree of every accepted program (matrix and 143 corpus programs): operand types agree, operators are applied to their type class only, casts connect different primitive types, initialisers, returns and arguments have the declared types.",
          "Trusted: the rule table in checks/c07.rs and the monitor in subjects/monitor.rs (from docs/errors.md, docs/features.md and pinned samples). Unspecified cells: char8 arithmetic, ordering of bool/char8, !bool, !usize, char8<->integer casts other than u8, identity casts on non-primitive types.",
          "complete enumeration of a finite configuration matrix against a rule table, plus an invariant checked on every reached (accepted) state", "5 (C07)"),
+ "C02": ("Bounded exhaustive exploration of the complete first-generation pipeline (lexer to IR generation and linking) in crash-isolated worker processes: all token sequences up to length 3 (quick) / 4 (thorough) over 63 token kinds; a viable-prefix breadth-first search (prefixes not yet rejected except for 'unexpected end of file', extended by every token) to depth 7/8 from the empty input and 4/5 further tokens from 15 non-initial contexts; all character strings up to length 3 and fragment pairs, as a file and as a function body; the complete single-fault neighbourhood (delete, duplicate, swap, replace by each of 24 tokens, at every position) of grammar-derived programs and of the corpus files; nesting pumps for 10 self-embedding productions at depths 1..256 on a release-profile worker; all 584 histories of up to three module kinds through one Compiler. Invariant in every state: success with IR for every module, or failure with at least one diagnostic; never a panic, LLVM abort, stack overflow, timeout, internal error or empty error list.",
+         "Trusted: the per-case watchdog (20 s) as the termination bound. Not covered: inputs beyond the bounds (64 KiB texts, multi-fault neighbourhoods of large files).",
+         "explicit-state breadth-first search over inputs (viable-prefix) plus exhaustive fault enumeration, with a safety invariant evaluated in every state", "5 (C02)"),
 }
 
 NOT_YET = {}
